@@ -806,3 +806,703 @@ func runJoinDirDeclared(c *Ctx, rule string) {
 		c.Undecided(rule, "propagateSortKeyOp", "expected the two stores LeftDir/RightDir, found "+sprint(n))
 	}
 }
+
+// ---- C06-F2: each sort key is evaluated on the operands the comparator was given.
+//
+// A multi-key comparison walks the keys in order.  The direction of one key may swap what is
+// compared for THAT key, but the operands handed to the next key's evaluator must be the original
+// ones: an operand (or an index of one) that is carried around the key loop makes a descending
+// key reverse every later key, so the pairwise comparison no longer agrees with the bulk sorter.
+func runSortKeyOperandsInvariant(c *Ctx, rule string) {
+	p := c.P
+	c.Rule(rule, "in the comparator's key loops the value handed to a key's evaluator does not depend on state carried from the previous key (no loop-header phi other than the loop counter reaches the operand of Eval)")
+	n := 0
+	for _, fn := range p.FuncsIn("runtime/sam/expr") {
+		top := fn
+		for top.Parent() != nil {
+			top = top.Parent()
+		}
+		if top.Signature.Recv() == nil || namedOf(top.Signature.Recv().Type()) != "runtime/sam/expr.Comparator" {
+			continue
+		}
+		isCounter := func(phi *ssa.Phi) bool {
+			for _, e := range phi.Edges {
+				if bo, ok := e.(*ssa.BinOp); ok && bo.Op == token.ADD && (bo.X == ssa.Value(phi) || bo.Y == ssa.Value(phi)) {
+					return true
+				}
+			}
+			return false
+		}
+		isCarried := func(v ssa.Value) bool {
+			phi, ok := v.(*ssa.Phi)
+			if !ok || isCounter(phi) {
+				return false
+			}
+			b := phi.Block()
+			for i := range phi.Edges {
+				if pred := b.Preds[i]; b.Dominates(pred) {
+					return true
+				}
+			}
+			return false
+		}
+		for _, ci := range allCalls(fn) {
+			cc := ci.Common()
+			if !cc.IsInvoke() || cc.Method.Name() != "Eval" || len(cc.Args) != 2 {
+				continue
+			}
+			call, ok := ci.(*ssa.Call)
+			if !ok || !inCycle(fn, call) {
+				continue
+			}
+			n++
+			construct := constructName(fn) + " key evaluation #" + sprint(n)
+			if dependsOn(cc.Args[1], isCarried) {
+				c.Fail(rule, construct, ci.Pos(), "the operand of this key's evaluator is carried over from the previous key (swapped there for a descending key): every key after a descending one is compared in the wrong direction, so Compare disagrees with the bulk sorter and a spilled multi-key sort merges its runs out of order")
+			} else {
+				c.OK(rule, construct, ci.Pos(), "evaluated on the comparator's own operands")
+			}
+		}
+	}
+	if n < 3 {
+		c.Undecided(rule, "runtime/sam/expr.Comparator", "fewer than 3 key evaluations inside loops found ("+sprint(n)+")")
+	}
+}
+
+// ---- C15-E2: a child delete that the parent cannot honour is a conflict, never a no-op.
+func runDiffDeleteConflict(c *Ctx, rule string) {
+	p := c.P
+	c.Rule(rule, "in commits.Diff a delete of the child is either applied to the parent (DeleteObject) or refused: the branch on which the object does not exist in the parent reaches only error returns — it never continues with the next delete or returns a patch")
+	fn := p.Func("lake/commits.Diff")
+	if fn == nil {
+		c.Undecided(rule, "lake/commits.Diff", "anchor does not resolve")
+		return
+	}
+	n := 0
+	for _, ci := range allCalls(fn) {
+		call, ok := ci.(*ssa.Call)
+		if !ok || calleeName(ci.Common()) != "lake/commits.Exists" || !inCycle(fn, call) {
+			continue
+		}
+		// the delete loop: the looked-up id comes from child.deletedObjects
+		if !dependsOn(call.Call.Args[1], func(v ssa.Value) bool { return isFieldLoad(v, "deletedObjects") }) {
+			continue
+		}
+		var iff *ssa.If
+		for _, r := range *call.Referrers() {
+			if x, ok := r.(*ssa.If); ok {
+				iff = x
+			}
+		}
+		if iff == nil {
+			continue
+		}
+		n++
+		start := iff.Block().Succs[1]
+		seen := map[*ssa.BasicBlock]bool{}
+		var bad token.Pos
+		found := false
+		var walk func(b *ssa.BasicBlock)
+		walk = func(b *ssa.BasicBlock) {
+			if seen[b] || found {
+				return
+			}
+			seen[b] = true
+			if b == call.Block() {
+				found, bad = true, call.Pos()
+				return
+			}
+			if ret, ok := b.Instrs[len(b.Instrs)-1].(*ssa.Return); ok {
+				if len(ret.Results) > 0 && isNilConst(ret.Results[len(ret.Results)-1]) {
+					found, bad = true, ret.Pos()
+				}
+				return
+			}
+			for _, s := range b.Succs {
+				walk(s)
+			}
+		}
+		walk(start)
+		construct := "lake/commits.Diff child delete absent from the parent"
+		if found {
+			c.Fail(rule, construct, bad, "when the parent no longer has the object the child deleted, Diff goes on (next delete / returns the patch) instead of reporting a delete conflict: the merge succeeds although both sides removed the same object in different ways, so records deleted on one side come back and shared records are duplicated")
+		} else {
+			c.OK(rule, construct, iff.Pos(), "only error returns are reachable")
+		}
+	}
+	if n != 1 {
+		c.Undecided(rule, "lake/commits.Diff", "expected one existence test in the delete loop, found "+sprint(n))
+	}
+}
+
+// ---- C15-K2: a merge adds only what the child added.
+//
+// The child patch is a view: the common ancestor's objects minus the child's deletes plus the
+// child's additions.  Diff must offer to the parent only the additions.  If it walks the whole
+// view, every object of the common ancestor that the parent has deleted since (and the child
+// never touched) is missing from the parent and is therefore added back by the merge.
+func runDiffAddsOnlyChildAdditions(c *Ctx, rule string) {
+	p := c.P
+	c.Rule(rule, "merge = parent + child's additions − child's deletes: every object Diff adds to the parent patch comes from the child's own additions (child.diff), never from the child's whole view (Patch.SelectAll / Select, which includes the common ancestor's objects)")
+	fn := p.Func("lake/commits.Diff")
+	if fn == nil {
+		c.Undecided(rule, "lake/commits.Diff", "anchor does not resolve")
+		return
+	}
+	n := 0
+	for _, ci := range allCalls(fn) {
+		if calleeName(ci.Common()) != "(*lake/commits.Patch).AddDataObject" {
+			continue
+		}
+		n++
+		arg := ci.Common().Args[1]
+		fromView := dependsOn(arg, func(v ssa.Value) bool {
+			call, ok := v.(*ssa.Call)
+			if !ok {
+				return false
+			}
+			nm := calleeName(&call.Call)
+			return nm == "(*lake/commits.Patch).SelectAll" || nm == "(*lake/commits.Patch).Select"
+		})
+		fromDiff := dependsOn(arg, func(v ssa.Value) bool { return isFieldLoad(v, "diff") })
+		construct := "lake/commits.Diff adds an object to the parent patch"
+		switch {
+		case fromView:
+			c.Fail(rule, construct, ci.Pos(), "the objects offered to the parent are taken from the child's whole view, which includes the common ancestor's objects: an object the parent deleted after the branch point (and the child never touched) does not exist in the parent any more and is added back by the merge — data deleted on the parent reappears")
+		case fromDiff:
+			c.OK(rule, construct, ci.Pos(), "taken from the child's own additions")
+		default:
+			c.Undecided(rule, construct, "the origin of the added object is neither the child's additions nor its view")
+		}
+	}
+	if n == 0 {
+		c.Undecided(rule, "lake/commits.Diff", "no AddDataObject call found")
+	}
+}
+
+// ---- C02-D1: container decorators are elided only on the evidence of real union members.
+//
+// For a container whose element type is a union the formatter drops the container's decorator
+// when every member type has been seen among the elements (the reader can then re-infer the
+// union).  The evidence set may only hold member types returned by union.Untag: a null element
+// carries no member and must not count.
+func runElisionEvidence(c *Ctx, rule string) {
+	p := c.P
+	c.Rule(rule, "decorator elision counts only real union members: every key put into elemHelper.seen is a type returned by TypeUnion.Untag on every path (a null element or any constant type is never counted), and needsDecoration compares the evidence with the number of union members")
+	fn := p.Func("(*zson.elemHelper).add")
+	if fn == nil {
+		c.Undecided(rule, "(*zson.elemHelper).add", "anchor does not resolve")
+		return
+	}
+	n := 0
+	for _, b := range fn.Blocks {
+		for _, in := range b.Instrs {
+			mu, ok := in.(*ssa.MapUpdate)
+			if !ok || !isFieldLoad(mu.Map, "seen") {
+				continue
+			}
+			n++
+			bad := ""
+			seen := map[ssa.Value]bool{}
+			var leaves func(v ssa.Value)
+			leaves = func(v ssa.Value) {
+				if seen[v] {
+					return
+				}
+				seen[v] = true
+				switch x := v.(type) {
+				case *ssa.Phi:
+					for _, e := range x.Edges {
+						leaves(e)
+					}
+				case *ssa.MakeInterface:
+					leaves(x.X)
+				case *ssa.ChangeInterface:
+					leaves(x.X)
+				case *ssa.Extract:
+					if call, ok := x.Tuple.(*ssa.Call); ok && calleeName(&call.Call) == "(*super.TypeUnion).Untag" && x.Index == 0 {
+						return
+					}
+					bad = "a value that is not a result of Untag"
+				default:
+					bad = "a value that is not a result of Untag (" + short(v.String()) + ")"
+				}
+			}
+			leaves(mu.Key)
+			construct := "(*zson.elemHelper).add records an observed member type #" + sprint(n)
+			if bad != "" {
+				c.Fail(rule, construct, mu.Pos(), "the evidence set receives "+bad+": a null (or otherwise untagged) element then counts as one observed union member, so a container holding a null and missing exactly one member type loses its decorator and reads back with a narrower element type")
+			} else {
+				c.OK(rule, construct, mu.Pos(), "only results of union.Untag are recorded")
+			}
+		}
+	}
+	if n == 0 {
+		c.Undecided(rule, "(*zson.elemHelper).add", "no update of the evidence set found")
+	}
+	// needsDecoration compares len(seen) with len(union.Types)
+	nd := p.Func("(*zson.elemHelper).needsDecoration")
+	if nd == nil {
+		c.Undecided(rule, "(*zson.elemHelper).needsDecoration", "anchor does not resolve")
+		return
+	}
+	okCmp := false
+	for _, b := range nd.Blocks {
+		for _, in := range b.Instrs {
+			bo, ok := in.(*ssa.BinOp)
+			if !ok || (bo.Op != token.LSS && bo.Op != token.GEQ && bo.Op != token.EQL && bo.Op != token.NEQ && bo.Op != token.GTR && bo.Op != token.LEQ) {
+				continue
+			}
+			l := dependsOn(bo.X, func(v ssa.Value) bool { return isFieldLoad(v, "seen") }) || dependsOn(bo.Y, func(v ssa.Value) bool { return isFieldLoad(v, "seen") })
+			r := dependsOn(bo.X, func(v ssa.Value) bool { return isFieldLoad(v, "Types") }) || dependsOn(bo.Y, func(v ssa.Value) bool { return isFieldLoad(v, "Types") })
+			if l && r {
+				okCmp = true
+			}
+		}
+	}
+	if okCmp {
+		c.OK(rule, "(*zson.elemHelper).needsDecoration", nd.Pos(), "compares the evidence with the number of union members")
+	} else {
+		c.Fail(rule, "(*zson.elemHelper).needsDecoration", nd.Pos(), "the decision to drop a container decorator no longer compares the observed member types with the union's member count")
+	}
+}
+
+// ---- C11-B1: output cursors of the JSON string decoder stay inside the buffer.
+//
+// unquoteBytes writes through a cursor into a buffer sized from the input length.  Malformed
+// UTF-8 expands (one bad byte becomes U+FFFD, three bytes), so the buffer can run out: every
+// write through the cursor inside the loop must be preceded, in that iteration, by a test of the
+// cursor against len(buffer) (the growth check).
+func runDecoderCursorBound(c *Ctx, rule string) {
+	p := c.P
+	c.Rule(rule, "in the JSON string decoder every store through the output cursor inside the decode loop is dominated by a test that relates the cursor to len(buffer) (the regrow check): input that expands while decoding (malformed UTF-8 → U+FFFD) cannot run the cursor past the buffer")
+	fn := p.Func("zio/jsonio.unquoteBytes")
+	if fn == nil {
+		c.Undecided(rule, "zio/jsonio.unquoteBytes", "anchor does not resolve")
+		return
+	}
+	isLen := func(v ssa.Value) bool {
+		call, ok := v.(*ssa.Call)
+		if !ok {
+			return false
+		}
+		b, ok := call.Call.Value.(*ssa.Builtin)
+		return ok && b.Name() == "len" && short(call.Call.Args[0].Type().String()) == "[]byte"
+	}
+	n := 0
+	for _, b := range fn.Blocks {
+		for _, in := range b.Instrs {
+			var idx ssa.Value
+			var pos token.Pos
+			switch x := in.(type) {
+			case *ssa.Store:
+				ia, ok := x.Addr.(*ssa.IndexAddr)
+				if !ok || short(ia.X.Type().String()) != "[]byte" {
+					continue
+				}
+				idx, pos = ia.Index, x.Pos()
+			case *ssa.Call:
+				if calleeName(&x.Call) != "unicode/utf8.EncodeRune" {
+					continue
+				}
+				sl, ok := x.Call.Args[0].(*ssa.Slice)
+				if !ok || sl.Low == nil {
+					continue
+				}
+				idx, pos = sl.Low, x.Pos()
+			default:
+				continue
+			}
+			if !inCycle(fn, in) {
+				continue
+			}
+			if _, isConst := idx.(*ssa.Const); isConst {
+				continue
+			}
+			n++
+			guarded := false
+			for _, gb := range fn.Blocks {
+				if len(gb.Instrs) == 0 || !gb.Dominates(b) {
+					continue
+				}
+				iff, ok := gb.Instrs[len(gb.Instrs)-1].(*ssa.If)
+				if !ok {
+					continue
+				}
+				cmp, ok := iff.Cond.(*ssa.BinOp)
+				if !ok {
+					continue
+				}
+				hasLen := dependsOn(cmp.X, isLen) || dependsOn(cmp.Y, isLen)
+				// the other side is the cursor (same phi as the index, modulo increments)
+				base := func(v ssa.Value) ssa.Value {
+					for {
+						bo, ok := v.(*ssa.BinOp)
+						if !ok || bo.Op != token.ADD {
+							return v
+						}
+						v = bo.X
+					}
+				}
+				cur := base(idx)
+				hasCur := dependsOn(cmp.X, func(v ssa.Value) bool { return v == cur }) || dependsOn(cmp.Y, func(v ssa.Value) bool { return v == cur })
+				if hasLen && hasCur && inCycle(fn, iff) {
+					guarded = true
+				}
+			}
+			construct := "zio/jsonio.unquoteBytes write through the output cursor #" + sprint(n)
+			if guarded {
+				c.OK(rule, construct, pos, "preceded by the cursor-vs-len(buffer) check in the same iteration")
+			} else {
+				c.Fail(rule, construct, pos, "no test of the cursor against len(buffer) precedes this write inside the loop: a string with several malformed UTF-8 bytes (each becomes a 3-byte U+FFFD) overruns the once-allocated buffer and the index-out-of-range panic escapes Reader.Read — a log line with binary garbage kills the process")
+			}
+		}
+	}
+	if n < 3 {
+		c.Undecided(rule, "zio/jsonio.unquoteBytes", "fewer than 3 cursor writes in the loop found ("+sprint(n)+")")
+	}
+}
+
+// ---- C04-T1: the case-insensitive finder folds every text byte it looks at.
+//
+// CaseFinder's pattern and both skip tables are built from the lower-cased pattern.  The search
+// is only an over-approximation-free pre-filter if every byte of the text is folded the same way
+// before it is compared with the pattern or used as an index into a skip table.
+func runCaseFinderFolds(c *Ctx, rule string) {
+	p := c.P
+	c.Rule(rule, "in stringsearch.CaseFinder.Next a byte read from the text is only ever handed to tolower: comparisons with the (lower-cased) pattern and indexes into the skip tables built from it never see a raw text byte")
+	fn := p.Func("(*pkg/stringsearch.CaseFinder).Next")
+	if fn == nil {
+		c.Undecided(rule, "(*pkg/stringsearch.CaseFinder).Next", "anchor does not resolve")
+		return
+	}
+	var text *ssa.Parameter
+	for _, prm := range fn.Params {
+		if prm.Name() == "text" {
+			text = prm
+		}
+	}
+	if text == nil {
+		c.Undecided(rule, "(*pkg/stringsearch.CaseFinder).Next", "parameter text not found")
+		return
+	}
+	n := 0
+	for _, b := range fn.Blocks {
+		for _, in := range b.Instrs {
+			lk, ok := in.(*ssa.Index)
+			if !ok || lk.X != ssa.Value(text) {
+				continue
+			}
+			n++
+			construct := "(*pkg/stringsearch.CaseFinder).Next text byte #" + sprint(n)
+			bad := false
+			for _, r := range *lk.Referrers() {
+				if _, ok := r.(*ssa.DebugRef); ok {
+					continue
+				}
+				if call, ok := r.(*ssa.Call); ok && calleeName(&call.Call) == "pkg/stringsearch.tolower" {
+					continue
+				}
+				bad = true
+			}
+			if bad {
+				c.Fail(rule, construct, lk.Pos(), "a raw (unfolded) text byte is compared with the lower-cased pattern or indexes a skip table built from it: an upper-case letter gets the maximal skip and the search jumps over an occurrence that differs only in case, so the ZNG buffer filter drops a frame the exact (case-insensitive) filter would have matched")
+			} else {
+				c.OK(rule, construct, lk.Pos(), "only handed to tolower")
+			}
+		}
+	}
+	if n < 2 {
+		c.Undecided(rule, "(*pkg/stringsearch.CaseFinder).Next", "fewer than 2 reads of the text found")
+	}
+	// the pattern itself is lower-cased at construction
+	nf := p.Func("pkg/stringsearch.NewCaseFinder")
+	okLower := false
+	if nf != nil {
+		for _, ci := range allCalls(nf) {
+			if calleeName(ci.Common()) == "strings.ToLower" {
+				okLower = true
+			}
+		}
+	}
+	if okLower {
+		c.OK(rule, "pkg/stringsearch.NewCaseFinder", nf.Pos(), "pattern lower-cased before the tables are built")
+	} else {
+		c.Fail(rule, "pkg/stringsearch.NewCaseFinder", token.NoPos, "the pattern is not lower-cased before the skip tables are built")
+	}
+}
+
+// ---- C01-T1: the type ID in front of a value comes from the stream's type encoder.
+func runValueIDFromEncoder(c *Ctx, rule string) {
+	p := c.P
+	c.Rule(rule, "in zngio.Writer.Write the type ID written in front of a value is, on every path, TypeID of what the stream's type encoder returned (Lookup/Encode): no path computes the ID from the value's type directly (Type.ID() of a named type is its underlying type's ID, so the name would be dropped without a typedef ever being written)")
+	fn := p.Func("(*zio/zngio.Writer).Write")
+	if fn == nil {
+		c.Undecided(rule, "(*zio/zngio.Writer).Write", "anchor does not resolve")
+		return
+	}
+	n := 0
+	for _, ci := range allCalls(fn) {
+		if calleeName(ci.Common()) != "encoding/binary.AppendUvarint" {
+			continue
+		}
+		n++
+		bad := ""
+		seen := map[ssa.Value]bool{}
+		var encLeaves func(v ssa.Value)
+		encLeaves = func(v ssa.Value) {
+			if seen[v] || bad != "" {
+				return
+			}
+			seen[v] = true
+			switch x := v.(type) {
+			case *ssa.Phi:
+				for _, e := range x.Edges {
+					encLeaves(e)
+				}
+			case *ssa.Extract:
+				encLeaves(x.Tuple)
+			case *ssa.ChangeInterface:
+				encLeaves(x.X)
+			case *ssa.MakeInterface:
+				encLeaves(x.X)
+			case *ssa.Call:
+				nm := calleeName(&x.Call)
+				if nm != "(*zio/zngio.Encoder).Lookup" && nm != "(*zio/zngio.Encoder).Encode" {
+					bad = "a type that did not come from the encoder (" + nm + ")"
+				}
+			default:
+				bad = "a type that did not come from the encoder (" + short(v.String()) + ")"
+			}
+		}
+		var idLeaves func(v ssa.Value)
+		idLeaves = func(v ssa.Value) {
+			if seen[v] || bad != "" {
+				return
+			}
+			seen[v] = true
+			switch x := v.(type) {
+			case *ssa.Phi:
+				for _, e := range x.Edges {
+					idLeaves(e)
+				}
+			case *ssa.Convert:
+				idLeaves(x.X)
+			case *ssa.Call:
+				if calleeName(&x.Call) == "super.TypeID" {
+					encLeaves(x.Call.Args[0])
+				} else {
+					nm := calleeName(&x.Call)
+					if x.Call.IsInvoke() {
+						nm = "interface method " + x.Call.Method.Name()
+					}
+					bad = "an ID not computed by TypeID of the encoder's type (" + nm + ")"
+				}
+			default:
+				bad = "an ID not computed by TypeID of the encoder's type (" + short(v.String()) + ")"
+			}
+		}
+		idLeaves(ci.Common().Args[1])
+		construct := "(*zio/zngio.Writer).Write value type ID #" + sprint(n)
+		if bad != "" {
+			c.Fail(rule, construct, ci.Pos(), "on some path the ID written in front of the value is "+bad+": the reader then resolves the ID in its own table and returns the value with another type (a top-level value of a named primitive type loses its name)")
+		} else {
+			c.OK(rule, construct, ci.Pos(), "TypeID of the encoder's Lookup/Encode result on every path")
+		}
+	}
+	if n != 1 {
+		c.Undecided(rule, "(*zio/zngio.Writer).Write", "expected one AppendUvarint of the value's type ID, found "+sprint(n))
+	}
+}
+
+// ---- C14-S3: nobody tells the lake writer that its input is already sorted.
+func runInputSortedWriters(c *Ctx, rule string) {
+	p := c.P
+	c.Rule(rule, "lake.Writer sorts what it is given: the inputSorted switch, which makes the writer skip its sort, is set nowhere (load, compaction and delete-where all hand it streams whose order nothing guarantees across objects)")
+	n := 0
+	for _, fn := range p.FuncsIn("lake") {
+		for _, b := range fn.Blocks {
+			for _, in := range b.Instrs {
+				st, ok := in.(*ssa.Store)
+				if !ok {
+					continue
+				}
+				fa, ok := st.Addr.(*ssa.FieldAddr)
+				if !ok || namedOf(fa.X.Type()) != "lake.Writer" || fieldName(fa.X.Type(), fa.Field) != "inputSorted" {
+					continue
+				}
+				if k, ok := st.Val.(*ssa.Const); ok && k.Value != nil && k.Value.String() == "false" {
+					continue
+				}
+				n++
+				c.Fail(rule, fnName(fn)+" sets lake.Writer.inputSorted", st.Pos(), "the writer is told to skip its sort, but the stream it receives is only sorted per source object: survivors of overlapping objects arrive interleaved out of order, so the rewritten object is stored unsorted with min/max taken from its first and last value and scans of the pool are no longer in key order")
+			}
+		}
+	}
+	// the switch must exist for the rule to mean anything
+	wt := p.Type("lake", "Writer")
+	has := false
+	if wt != nil {
+		if st, ok := wt.Underlying().(*types.Struct); ok {
+			for i := 0; i < st.NumFields(); i++ {
+				if st.Field(i).Name() == "inputSorted" {
+					has = true
+				}
+			}
+		}
+	}
+	if n == 0 {
+		if has {
+			c.OK(rule, "lake.Writer.inputSorted", token.NoPos, "never set")
+		} else {
+			c.OK(rule, "lake.Writer.inputSorted", token.NoPos, "the switch no longer exists")
+		}
+	}
+}
+
+// ---- C20-M2: fusing an array with a set gives an array.
+func runMergeSetOnlyFromSets(c *Ctx, rule string) {
+	p := c.P
+	c.Rule(rule, "the fused type of two container types is a set only if both are sets: every LookupTypeSet in agg.merge is dominated by successful assertions of both operands to *TypeSet (shaping an array into a set sorts and de-duplicates it, which loses values)")
+	fn := p.Func("runtime/sam/expr/agg.merge")
+	if fn == nil {
+		c.Undecided(rule, "runtime/sam/expr/agg.merge", "anchor does not resolve")
+		return
+	}
+	n := 0
+	for _, ci := range allCalls(fn) {
+		if calleeName(ci.Common()) != "(*super.Context).LookupTypeSet" {
+			continue
+		}
+		n++
+		roots := map[ssa.Value]bool{}
+		for _, b := range fn.Blocks {
+			for _, in := range b.Instrs {
+				ta, ok := in.(*ssa.TypeAssert)
+				if !ok || !ta.CommaOk || short(ta.AssertedType.String()) != "*super.TypeSet" {
+					continue
+				}
+				for _, r := range *ta.Referrers() {
+					if ex, ok := r.(*ssa.Extract); ok && ex.Index == 1 && trueEdgeDominates(ex, ci.Block()) {
+						roots[ta.X] = true
+					}
+				}
+			}
+		}
+		construct := "runtime/sam/expr/agg.merge builds a set type #" + sprint(n)
+		if len(roots) >= 2 {
+			c.OK(rule, construct, ci.Pos(), "both operands asserted to be sets")
+		} else {
+			c.Fail(rule, construct, ci.Pos(), "a set type is produced although only "+sprint(len(roots))+" of the two operands is known to be a set: fusing a set seen first with an array seen later casts the array's values into a set, which silently drops repeated elements")
+		}
+	}
+	if n == 0 {
+		c.Undecided(rule, "runtime/sam/expr/agg.merge", "no LookupTypeSet call found")
+	}
+}
+
+// ---- C03-N1: whole words of a null bitmap are copied only between aligned cursors.
+//
+// vector.Bool keeps 64 slots per word.  Code that copies a word of one bitmap straight into a word
+// of another (dst.Bits[x>>6] = src.Bits[y>>6]) is only equivalent to the slot-by-slot loop if both
+// cursors are multiples of 64 at that point.  (A copy that shifts and combines two words is not
+// a direct copy and is not judged by this rule.)
+func runBitmapWordCopies(c *Ctx, rule string) {
+	p := c.P
+	c.Rule(rule, "a word of one null bitmap is copied unchanged into another only where both slot cursors were tested to be multiples of 64 (x&63 == 0 dominates the copy, for the source cursor and for the destination cursor)")
+	n := 0
+	wordIdx := func(v ssa.Value) (ssa.Value, bool) {
+		ia, ok := v.(*ssa.IndexAddr)
+		if !ok {
+			return nil, false
+		}
+		ld, ok := ia.X.(*ssa.UnOp)
+		if !ok {
+			return nil, false
+		}
+		fa, ok := ld.X.(*ssa.FieldAddr)
+		if !ok || namedOf(fa.X.Type()) != "vector.Bool" || fieldName(fa.X.Type(), fa.Field) != "Bits" {
+			return nil, false
+		}
+		idx := stripConv(ia.Index)
+		if bo, ok := idx.(*ssa.BinOp); ok && bo.Op == token.SHR {
+			if k, ok := bo.Y.(*ssa.Const); ok && k.Value != nil && k.Uint64() == 6 {
+				return stripConv(bo.X), true
+			}
+		}
+		return idx, false
+	}
+	aligned := func(fn *ssa.Function, cur ssa.Value, at *ssa.BasicBlock) bool {
+		for _, b := range fn.Blocks {
+			for _, in := range b.Instrs {
+				cmp, ok := in.(*ssa.BinOp)
+				if !ok || cmp.Op != token.EQL {
+					continue
+				}
+				var and *ssa.BinOp
+				if k, ok := cmp.Y.(*ssa.Const); ok && k.Value != nil && k.Uint64() == 0 {
+					and, _ = stripConv(cmp.X).(*ssa.BinOp)
+				}
+				if and == nil || and.Op != token.AND {
+					continue
+				}
+				k, ok := and.Y.(*ssa.Const)
+				if !ok || k.Value == nil || k.Uint64() != 63 || stripConv(and.X) != cur {
+					continue
+				}
+				if trueEdgeDominates(cmp, at) {
+					return true
+				}
+				// the test may be the first operand of a && chain: its true edge leads (through
+				// further tests) to the copy; accept if the block of the copy is dominated by the
+				// test's block and not reachable through its false edge
+				if b.Dominates(at) {
+					if iff, ok := b.Instrs[len(b.Instrs)-1].(*ssa.If); ok && iff.Cond == ssa.Value(cmp) {
+						if !reachesBlock(b.Succs[1], at, b) {
+							return true
+						}
+					}
+				}
+			}
+		}
+		return false
+	}
+	for _, fn := range p.FuncsIn("runtime/vcache", "vector", "runtime/vam/expr", "runtime/vam/op") {
+		for _, b := range fn.Blocks {
+			for _, in := range b.Instrs {
+				st, ok := in.(*ssa.Store)
+				if !ok {
+					continue
+				}
+				dcur, dshift := wordIdx(st.Addr)
+				if dcur == nil {
+					continue
+				}
+				ld, ok := st.Val.(*ssa.UnOp)
+				if !ok {
+					continue
+				}
+				scur, sshift := wordIdx(ld.X)
+				if scur == nil {
+					continue
+				}
+				if !dshift && !sshift && dcur == scur {
+					continue // same word index variable on both sides (word-by-word loop over equal-length vectors)
+				}
+				n++
+				construct := constructName(fn) + " copies a bitmap word #" + sprint(n)
+				okD := !dshift || aligned(fn, dcur, b)
+				okS := !sshift || aligned(fn, scur, b)
+				if dshift != sshift {
+					okD, okS = false, false
+				}
+				if okD && okS {
+					c.OK(rule, construct, st.Pos(), "both cursors tested to be multiples of 64")
+				} else {
+					c.Fail(rule, construct, st.Pos(), "a whole word of the source bitmap is stored into the destination although the source (or destination) slot cursor is not known to be a multiple of 64 here: once the cursors drift apart (e.g. after a null parent record) the copied word belongs to other slots, nulls land on the wrong rows and values are decoded into the wrong slots")
+				}
+			}
+		}
+	}
+	c.extra("c03_bitmap_word_copies", n)
+}
